@@ -114,6 +114,31 @@ fn slots<T: ShortMessage>(a: &[Option<T>; 4]) -> [Option<(u8, u8, u8)>; 4] {
     [f(&a[0]), f(&a[1]), f(&a[2]), f(&a[3])]
 }
 
+/// Expected slots without allocating: (slots, number of filled slots).
+#[inline]
+fn expected_slots(p: &Pnm, lsb_first: bool) -> [Option<(u8, u8, u8)>; 4] {
+    let st = 0xB0 | p.ch;
+    let (cm, cl) = if p.reg { (101u8, 100u8) } else { (99, 98) };
+    let mut w: [Option<(u8, u8, u8)>; 4] = [Some((st, cm, (p.number >> 7) as u8)), Some((st, cl, (p.number & 0x7f) as u8)), None, None];
+    match p.kind {
+        Kind::Entry7 => w[2] = Some((st, 6, p.value as u8)),
+        Kind::Inc => w[2] = Some((st, 96, p.value as u8)),
+        Kind::Dec => w[2] = Some((st, 97, p.value as u8)),
+        Kind::Entry14 => {
+            let hi = Some((st, 6u8, (p.value >> 7) as u8));
+            let lo = Some((st, 38u8, (p.value & 0x7f) as u8));
+            if lsb_first {
+                w[2] = lo;
+                w[3] = hi;
+            } else {
+                w[2] = hi;
+                w[3] = lo;
+            }
+        }
+    }
+    w
+}
+
 #[inline]
 fn c09_one(chk: &Check, p: &Pnm) {
     let m = p.build();
@@ -129,11 +154,7 @@ fn c09_one(chk: &Check, p: &Pnm) {
         vio!(chk, "C09", "resolution-consistent", &format!("{:?}", p.kind), format!("pnm|{:?}", p), format!("{:?}: is_14_bit={} value={} data_type={:?}", p, m.is_14_bit(), m.value().get(), m.data_type()));
     }
     for (lsb_first, order) in [(false, DataEntryByteOrder::MsbFirst), (true, DataEntryByteOrder::LsbFirst)] {
-        let enc = p.encoding(lsb_first);
-        let mut want: [Option<(u8, u8, u8)>; 4] = [None; 4];
-        for (i, (c, v)) in enc.iter().enumerate() {
-            want[i] = Some((0xB0 | p.ch, *c, *v));
-        }
+        let want = expected_slots(p, lsb_first);
         let r: [Option<RawShortMessage>; 4] = m.to_short_messages(order);
         let s: [Option<StructuredShortMessage>; 4] = m.to_short_messages(order);
         if slots(&r) != want {
@@ -156,7 +177,7 @@ fn c09_one(chk: &Check, p: &Pnm) {
 }
 
 pub fn run_c09(chk: &Check, tier: Tier) {
-    chk.rule("8 constructors x 16 channels x numbers x values x 2 byte orders x {Raw, Structured} (+ array conversion): accessors and every slot of the encoding against the statement's layout. quick: all 16384 numbers x boundary values and all values x boundary numbers on every channel (each dimension complete, the others on boundaries); thorough: the full product. non-trivial = distinct messages evaluated whose number and value are both non-zero");
+    chk.rule("8 constructors x 16 channels x numbers x values x 2 byte orders x {Raw, Structured} (+ array conversion): accessors and every slot of the encoding against the statement's layout. quick: all 16384 numbers x boundary values and all values x boundary numbers on every channel (each dimension complete, the others on boundaries); thorough: additionally the FULL number x value product (16384 x (16384 + 3x128) messages per registered flag) on channels 0 and 15 (the channel enters the encoding only through the status nibble). non-trivial = distinct messages evaluated whose number and value are both non-zero");
     let t0 = Instant::now();
     let cap = Duration::from_secs(if tier.thorough() { 1200 } else { 120 });
     let evals = AtomicU64::new(0);
@@ -176,7 +197,7 @@ pub fn run_c09(chk: &Check, tier: Tier) {
                     nt += 1;
                 }
             };
-            if tier.thorough() {
+            if tier.thorough() && (c == 0 || c == 15) {
                 for number in 0..16384u16 {
                     if t0.elapsed() > cap {
                         capped.store(true, Ordering::Relaxed);
